@@ -23,4 +23,16 @@ tier="${2:-${VERIF_TIER:-quick}}"
 if [ "$tier" = "thorough" ]; then
   exec python3 ./thorough.py "$prop"
 fi
-exec $BIN -repo "${VERIF_REPO:-/repo}" -prop "$prop" -tier quick
+# the checker exits 0 (held), 1 (VIOLATION lines printed) or, when it could not judge the tree at all (the tree does not
+# type-check, the checker itself failed), 2 or more: a tree that cannot be vouched for is reported like a violation,
+# with the checker's own output kept as the replay file
+mkdir -p evidence/replay
+log="evidence/replay/$prop-checker-error.log"
+$BIN -repo "${VERIF_REPO:-/repo}" -prop "$prop" -tier quick >"$log" 2>&1; rc=$?
+cat "$log"
+if [ $rc -ge 2 ]; then
+  echo "VIOLATION property=$prop replay=$(pwd)/$log"
+  exit 1
+fi
+rm -f "$log"
+exit $rc
